@@ -1595,12 +1595,16 @@ impl DistributedTxCoordinator {
         })?;
 
         tx.phase = TxPhase::Committing;
+        #[cfg(neumann_verif)]
+        tensor_store::verif_hooks::yield_point("dtx.commit.deciding");
 
         // CRITICAL: Log TxComplete BEFORE releasing locks to prevent double-release on recovery
         self.log_wal_entry(&TxWalEntry::TxComplete {
             tx_id,
             outcome: TxOutcome::Committed,
         })?;
+        #[cfg(neumann_verif)]
+        tensor_store::verif_hooks::yield_point("dtx.commit.logged");
 
         // Release all locks AFTER TxComplete is logged, WAL-logging each release
         for vote in tx.votes.values() {
@@ -1746,6 +1750,8 @@ impl DistributedTxCoordinator {
         })?;
 
         tx.phase = TxPhase::Aborting;
+        #[cfg(neumann_verif)]
+        tensor_store::verif_hooks::yield_point("dtx.abort.deciding");
 
         // CRITICAL: Log TxComplete BEFORE releasing locks to prevent double-release on recovery
         self.log_wal_entry(&TxWalEntry::TxComplete {
